@@ -1,4 +1,6 @@
 """Path exploration driver."""
+import os
+import sys
 import time
 import z3
 from .values import *
@@ -15,6 +17,9 @@ class PathResult:
         self.msg = msg
         self.ctx = ctx
         self.interp = interp
+
+
+_PROGRESS = int(os.environ.get('MIRSYM_PROGRESS', '0') or 0)
 
 
 def explore(prog, run, on_path, loop_bound=16, max_paths=200000, timeout_ms=20000, time_budget=None,
@@ -47,6 +52,8 @@ def explore(prog, run, on_path, loop_bound=16, max_paths=200000, timeout_ms=2000
         except LoopBack as e:
             res = PathResult('backedge', e.frame, '', ctx, I)
         stats['paths'] += 1
+        if _PROGRESS and stats['paths'] % _PROGRESS == 0:
+            print('[mirsym] paths=%d work=%d t=%.0fs depth=%d %s' % (stats['paths'], len(work), time.time() - t0, len(ctx.decisions) if hasattr(ctx, 'decisions') else -1, stats['outcomes']), file=sys.stderr, flush=True)
         stats['outcomes'][res.kind] = stats['outcomes'].get(res.kind, 0) + 1
         stats.setdefault('functions', set()).update(I.called)
         if res.kind == 'infeasible':
